@@ -93,6 +93,8 @@ def std_funcs():
         "faillookup": Spec("faillookup", "*a, **k", ("raise", KeyError, "faillookup")),
         "failtype": Spec("failtype", "*a, **k", ("typeerror-body", "unsupported operand inside body")),
         "badresult": Spec("badresult", "*a, **k", ("unconvertible",)),
+        "badresult2": Spec("badresult2", "*a, **k", ("unconvertible", "late")),
+        "badresult3": Spec("badresult3", "*a, **k", ("unconvertible", "late-nested")),
         "notready": Spec("notready", "*a, **k", ("shared-fault", -32050)),
         "notready2": Spec("notready2", "*a, **k", ("shared-fault", 42)),
     }
@@ -117,7 +119,7 @@ def std_tree():
 
 
 METHOD_NAMES = ["echo", "two", "opt", "kwonly", "noargs", "kw", "ns.sum", "é", "const0", "constnull", "constfalse",
-                "constlist", "conststr", "fail", "failkey", "failos", "failuser", "failempty", "failtype", "badresult",
+                "constlist", "conststr", "fail", "failkey", "failos", "failuser", "failempty", "failtype", "badresult", "badresult2", "badresult3",
                 "notready", "notready2", "failattr", "faillookup",
                 "pub", "_priv", "__dunder", "data", "sub", "sub.inner", "sub._hidden", "sub.deeper.leaf",
                 "sub.deeper._no", "sub.fail", "_hiddenns.leaf", "sub.inner.__call__", "pub.__name__",
